@@ -19,15 +19,33 @@ FLAKY = ('BrokenBarrierError', 'Address already in use', 'TimeoutError', 'databa
 
 
 def run_retry(cases, workers):
-    """run_workers, re-running (twice at most) the cases in which the scheduler could not even start or stop its
-    server threads on the overloaded machine - an infrastructure hiccup, never a behaviour of the code under test."""
-    res = run_workers(cases, workers)
-    for _ in range(2):
+    """run_workers, re-running with fewer and fewer parallel workers the cases in which the scheduler could not even
+    start or stop its server threads on an overloaded machine - an infrastructure hiccup, never a behaviour of the
+    code under test (if it persists the check ends as an infrastructure failure, exit 2, not as a verdict)."""
+    from core import Infra
+    import time
+
+    def batch(cs, w):
+        for attempt in range(3):
+            try:
+                return run_workers(cs, w)
+            except Infra:
+                # a worker process died before answering: the cases are deterministic, run the batch again
+                if attempt == 2:
+                    raise
+                time.sleep(5)
+
+    res = batch(cases, workers)
+    for w in (max(1, workers // 2), max(1, workers // 4), 2, 1):
         again = [k for k, r in enumerate(res) if 'error' in r and any(f in r['error'] for f in FLAKY)]
         if not again:
             break
-        for k, r in zip(again, run_workers([cases[k] for k in again], workers)):
+        time.sleep(3)
+        for k, r in zip(again, batch([cases[k] for k in again], w)):
             res[k] = r
+    left = [cases[k]['id'] for k, r in enumerate(res) if 'error' in r and any(f in r['error'] for f in FLAKY)]
+    if left:
+        raise Infra(f'the scheduler could not start/stop its server threads for {left[:3]} after 5 attempts (machine overloaded?)')
     return res
 
 
@@ -73,6 +91,7 @@ class C19(SchedProp):
         'CylcModel.C19.restart_tasks_to_hold_kept',
         'CylcModel.C19.restart_tasks_to_hold_partial',
         'CylcModel.C19.spawn_after_restart',
+        'CylcModel.C19.successive_restarts',
         'CylcModel.Sched2.restart_spec',
         'CylcModel.Sched2.inv_run',
         'CylcModel.Sched2.nodup_run',
@@ -88,7 +107,8 @@ class C19(SchedProp):
         'down on its own (it then forgets the stop point by design) - this one through an inductive invariant over all '
         'primitives (Inv = duplicate-free pool + live stop point equals what a restart computes), under the decidable '
         'graph hypothesis WFStop (start-up stop point = configured one; the driver checks it on every extracted graph); '
-        'queued/runahead flags normalised as documented. TWO ITEMS OF THE PROPERTY TEXT ARE FALSE ON THE CODE and are '
+        'queued/runahead flags normalised as documented; a second restart with nothing in between changes nothing but the '
+        'internal is_updated flags (successive_restarts). TWO ITEMS OF THE PROPERTY TEXT ARE FALSE ON THE CODE and are '
         'kept as def ..._full : Prop with a kernel-checked counterexample and the exact implemented law proved instead: '
         'completed outputs are reloaded only for running/failed/succeeded tasks (restart_outputs, _partial, '
         '_counterexample; finding outputs-not-restored), and the hold point is re-applied after loading the pool so that '
